@@ -328,7 +328,7 @@ func runC15(w *mon.W) {
 	}
 
 	// Join / New
-	segAlpha := []string{"a", "b", "ab", "foo", "x-y", "é", "1"}
+	segAlpha := []string{"a", "b", "ab", "foo", "x-y", "é", "1", ".", "..", "...", "~", " ", "%2f", "a.b"}
 	for i := 0; i < w.Share(w.Pick(5000, 50000)); i++ {
 		base := cmds[w.Rng.IntN(len(cmds))]
 		n := w.Rng.IntN(4)
